@@ -218,6 +218,51 @@ static bool cb(void *ctx_, void *it)
             fenced_free(&f);
             break;
         }
+        case 0x5B: { /* RR_IP with a roomier buffer: the table must still report 4 or 16 and
+                        write exactly that many bytes */
+            uint8_t  extra = rd_u8(&r);
+            uint16_t ty;
+            size_t   want, addr_len, i;
+            Fenced   f;
+            int      touched = 0;
+            if (deleted) break;
+            ty   = t->rr_type(it);
+            want = ty == 1 ? 4 : (ty == 28 ? 16 : 0);
+            if (want == 0) break;
+            if (fenced_new(&f, want + extra, 0x5A) != 0) return true;
+            addr_len = want + extra;
+            t->rr_ip(it, f.data, &addr_len);
+            if (!fenced_ok(&f)) { log_u8(l, 0xEE); log_u8(l, 2); ctx->canary_bad = 1; }
+            log_u8(l, (uint8_t) addr_len);
+            log_bytes(l, f.data, want);
+            for (i = want; i < want + extra; i++) {
+                if (f.data[i] != 0x5A) touched = 1;
+            }
+            log_u8(l, (uint8_t) touched);
+            fenced_free(&f);
+            break;
+        }
+        case 0x5C: { /* SET_RAW_NAME with the current owner name, letter case flipped: the raw
+                        name is rebuilt from name() (lower-cased dotted text), upper-cased */
+            Fenced  f;
+            uint8_t raw[DNS_MAX_HOSTNAME_LEN + 2];
+            size_t  raw_len = 0;
+            int     rc;
+            if (deleted) break;
+            if (fenced_new(&f, DNS_MAX_HOSTNAME_LEN + 1, 0x5A) != 0) return true;
+            t->name(it, (char *) f.data);
+            err = NULL;
+            rc  = t->raw_name_from_str(raw, &raw_len, &err, (const char *) f.data,
+                                       strnlen((const char *) f.data, DNS_MAX_HOSTNAME_LEN));
+            fenced_free(&f);
+            if (rc != 0) { log_u8(l, 0xfc); break; }
+            { size_t i; for (i = 0; i < raw_len; i++) { if (raw[i] >= 'a' && raw[i] <= 'z') raw[i] = (uint8_t)(raw[i] - 32); } }
+            err = NULL;
+            rc  = t->set_raw_name(it, &err, raw, raw_len);
+            log_u8(l, (uint8_t) rc);
+            if (rc != 0) log_err(l, t, err);
+            break;
+        }
         case 0x56: { /* SET_RR_IP: only with the record's own family */
             size_t         n;
             const uint8_t *a = rd_blob(&r, &n);
